@@ -76,6 +76,16 @@ func (g *Group) AddGroup(shortDescription string, longDescription string, data i
 // AddOption adds a new option to this group.
 func (g *Group) AddOption(option *Option, data interface{}) {
 	option.value = reflect.ValueOf(data)
+
+	// data points to the variable that receives the value: bind the option to
+	// the variable itself, like the options scanned from struct fields (a
+	// pointer value cannot be emptied or assigned, and there is no struct
+	// field to take the type from)
+	if option.value.Kind() == reflect.Ptr && !option.value.IsNil() {
+		option.value = option.value.Elem()
+	}
+
+	option.field.Type = option.value.Type()
 	option.group = g
 	g.options = append(g.options, option)
 }
